@@ -93,6 +93,10 @@ func c06Case(c *Ctx, i int64) {
 		if ci%c06Residues != r {
 			continue
 		}
+		if s.pf.Skippable > 0 && L == s.pf.Start {
+			// complete skippable frame(s) followed by nothing: a legitimately complete (empty) stream
+			continue
+		}
 		prefix := s.frame[:L]
 		cls, _ := posClass(s.pf, L)
 		for _, conc := range concs {
